@@ -214,6 +214,7 @@ pub fn make_case(channel: &str, lines: &[String], content: &[u8], cfg: &Cfg, rng
         file,
         file_mode,
         tty: 0,
+        tty_out: false,
         seed: rng.next_u64(),
         events: vec![],
         dchunk: vec![],
@@ -234,6 +235,7 @@ pub fn make_probe_case(content: &[u8], cfg: &Cfg, rng: &mut Rng) -> Case {
         file: content.to_vec(),
         file_mode: FileMode::Memfd,
         tty: 0,
+        tty_out: false,
         seed: rng.next_u64(),
         events: vec![],
         dchunk: vec![],
